@@ -85,7 +85,7 @@ GEN_DEPENDS = {
 
 # extra property modules per property: (module under Garnish.Props, namespace to list, regex on the short name or None)
 AUDIT_EXTRA = {
-    'C01': [('C01Compile', 'Garnish.Props.C01', None), ('C01Build', 'Garnish.Props.C01Build', None), ('C01Source', 'Garnish.Props.C01Source', None), ('C02Numbered', 'Garnish.Props.C02Numbered', r'^C01_')],
+    'C01': [('C01Compile', 'Garnish.Props.C01', None), ('C01Build', 'Garnish.Props.C01Build', None), ('C01Source', 'Garnish.Props.C01Source', None), ('C02Numbered', 'Garnish.Props.C02Numbered', r'^C01_'), ('C01Text', 'Garnish.Props.C01Text', None)],
     'C06': [('C06Static', 'Garnish.Props.C06', None)],
     'C10': [('C01Compile', 'Garnish.Props.C01', r'^(C10_|C01_compile_correct$)'), ('C10Compile', 'Garnish.Props.C10', None)],
     'C17': [('C01Compile', 'Garnish.Props.C01', r'^(C17_|C01_compile_correct$|compile_env$)')],
